@@ -235,3 +235,7 @@ def hash_seed_position(ck, P, R="GUARD/hash-seed-position"):
         ck.decide(ok, R, "fill_window:update_hash#%d" % i, "seed bytes at strstart - insert and the next",
                   "fill_window seeds the rolling hash from window positions %s instead of `strstart - insert` and `strstart - insert + 1`"
                   % [mir.fmt(x, f)[:60] for x in args], where(f, c.line))
+
+# session 5 (round 10)
+EXPLANATION = EXPLANATION + " " + (
+    'GUARD/hash-seed-position: fill_window seeds the rolling hash from the window bytes at strstart - insert and the next (linear form of the index expressions).')
